@@ -59,7 +59,7 @@ def obligations(tier: str):
     stubs = ["lmfit.minimize replaced by its contract: varied parameters end anywhere inside [min, max], fixed ones keep their value, expr parameters "
              "follow their expression; lmfit.Parameters is a name->parameter mapping; _fit_process is a stub in the selection obligation"]
     obs = []
-    combos = (("R(RC)", False), ("R(RC)", True), ("RQ", False)) if tier == "quick" else (("R(RC)", False), ("R(RC)", True), ("RQ", False), ("R(RQ)", True), ("RL", True))
+    combos = (("R(RC)", False), ("R(RC)", True), ("RQ", False), ("W", False)) if tier == "quick" else (("R(RC)", False), ("R(RC)", True), ("RQ", False), ("W", False), ("R(RQ)", True), ("RL", True))
     for cdc, we in combos:
         obs.append(Obligation("fit.%s.%s" % (cdc, "expr" if we else "plain"), c08.make_fit_harness(cdc, we),
                               bounds="fit_circuit(%s), leastsq/boukamp%s; start values, limits (finite; first parameter also infinite), fixed flags symbolic; 3 unmasked + 1 masked points"
